@@ -323,7 +323,45 @@ func main() {
 				r.Fail("external-symbol:all:"+u, fmt.Sprintf("whole-library object %s references external symbol %q", j.key(), u), replayFor(j))
 			}
 		}
-		r.Op("undefined "+j.key(), strings.Join(filterOut(j.info.Undef, compilerAdded), " "))
+		und := filterOut(j.info.Undef, compilerAdded)
+		verdict := "ok"
+		for _, u := range und {
+			if u != "-" && !memFuncs[u] && !allocFuncs[u] {
+				verdict = "external:" + u
+				break
+			}
+		}
+		r.Op("undefs "+strings.Join(und, " "), verdict)
+	}
+
+	// ---- no system-call / clock / entropy instructions in the library's code
+	// (an inline-asm syscall would not show up as an undefined symbol).  cpuid /
+	// xgetbv are expected: base's CPU feature detection.
+	for _, j := range []*job{wholePlain[cfg{"gcc", "-O2"}]} {
+		dis := binutils("objdump", "-d", "--no-show-raw-insn", j.out)
+		if dis == "ERR" {
+			r.Count("skipped:objdump-failed")
+			break
+		}
+		nInsn := 0
+		for _, l := range strings.Split(dis, "\n") {
+			f := strings.Fields(l)
+			if len(f) < 2 || !strings.HasSuffix(f[0], ":") {
+				continue
+			}
+			nInsn++
+			switch f[1] {
+			case "syscall", "sysenter", "rdtsc", "rdtscp", "rdrand", "rdseed":
+				r.Fail("forbidden-instruction:"+f[1], "whole-library object contains instruction "+strings.Join(f[1:], " "), replayFor(j))
+			case "int":
+				if len(f) > 2 && f[2] == "$0x80" {
+					r.Fail("forbidden-instruction:int80", "whole-library object contains int $0x80", replayFor(j))
+				}
+			case "cpuid", "xgetbv":
+				r.Count("insn:" + f[1])
+			}
+		}
+		r.Extra("instructions_scanned", nInsn)
 	}
 
 	// ---- exported functions, per std package
@@ -411,13 +449,19 @@ func main() {
 	if r.Thorough {
 		nGen = 60
 	}
+	t2 := time.Now()
 	runGenerated(r, sb, work, nGen)
+	r.Extra("t_generated_s", time.Since(t2).Seconds())
 
 	// ---- pure-method clause on std
+	t3 := time.Now()
 	runStdPure(r, sb, work, sums, stdNames, wholePlain[base])
+	r.Extra("t_stdpure_s", time.Since(t3).Seconds())
 
 	// ---- effect-rule tie (real parser + checker in-process vs. the Lean tcheck)
+	t4 := time.Now()
 	runEffects(r, sb)
+	r.Extra("t_effects_s", time.Since(t4).Seconds())
 
 	// ---- cgen's C-name table
 	runNames(r)
@@ -707,6 +751,7 @@ func runGenerated(r *hlib.Run, sb *hlib.StdBuild, work string, n int) {
 	}
 }
 
+var reDrvS = regexp.MustCompile(`^S ok=(\d+) susp=(\d+) note=(\d+) err=(\d+)$`)
 var reDrv = regexp.MustCompile(`^([PI]) (\S+) calls=(\d+) (?:diffs|changed)=(\d+)$`)
 
 // reportDriver turns the driver's lines into `purecall` ops and oracle verdicts.
@@ -715,6 +760,14 @@ func reportDriver(r *hlib.Run, out string, prefix string, s *pkgSum, replay stri
 		fatal("driver did not finish: %s", out)
 	}
 	for _, l := range strings.Split(out, "\n") {
+		if ms := reDrvS.FindStringSubmatch(l); ms != nil {
+			for i, k := range []string{"ok", "suspension", "note", "error"} {
+				var n int
+				fmt.Sscan(ms[i+1], &n)
+				r.CountN("stdpure:step-status:"+k, n)
+			}
+			continue
+		}
 		m := reDrv.FindStringSubmatch(l)
 		if m == nil {
 			if strings.HasPrefix(l, "FATAL") {
